@@ -203,8 +203,10 @@ ymd_agrees(const struct rc_day *p, const char *got)
 	return n == 3 && !strcmp(sk, "--") && v[0] == p->y && v[1] == p->m && v[2] == p->d;
 }
 
-/* literal command line with the stock tools */
-static void
+/* literal command line with the stock tools; returns NULL when the case is not
+ * reachable through dadd (a day-count-held value: dadd holds what it parsed,
+ * only dseq steps with day counts) */
+static const char*
 dadd_cmd(char *cmd, size_t csz, int c, const char *text, const char *durs, const char *ofmt)
 {
 	char o[64] = "";
@@ -212,13 +214,13 @@ dadd_cmd(char *cmd, size_t csz, int c, const char *text, const char *durs, const
 		snprintf(o, sizeof(o), " -f '%s'", ofmt);
 	}
 	if (c == C_DAISY) {
-		/* a day-count-held value is what dseq steps with */
-		snprintf(cmd, csz, "dadd%s %s %s   # (library level: value converted to the day count first, as dseq holds it)", o, text, durs);
+		return NULL;
 	} else if (cal_ifmt[c]) {
 		snprintf(cmd, csz, "dadd -i %s%s %s %s", cal_ifmt[c], o, text, durs);
 	} else {
 		snprintf(cmd, csz, "dadd%s %s %s", o, text, durs);
 	}
+	return cmd;
 }
 
 #if defined VERIF_EXPLORE_H
